@@ -118,6 +118,7 @@ fn main() {
     let mut id = |s: String| -> usize { let n = ids.len() + 1; *ids.entry(s).or_insert(n) };
     let signed_ts: [u32; 4] = [0, 1, 5, 63];
 
+    let mut zero_rounds = 0u32;
     for h in 0..nhist {
         if !sink.wanted() { sink.skip(); continue; }
         // ---- the pool of attempts of this history -----------------------------------------------
@@ -272,6 +273,9 @@ fn main() {
             if !signers.is_empty() {
                 if let Err(e) = SignerBuilder::new(signers, &params) {
                     let text = format!("{:?}", e);
+                    // a round whose only stored registrations are pools the distribution gives stake 0 can not run the
+                    // protocol at all: C07 says nothing about that (the stake recorded IS the distribution's value)
+                    if text.contains("total stake is zero") && signers.iter().all(|s| s.stake == 0) { zero_rounds += 1; continue; }
                     let class = if text.contains("already registered") || text.contains("AlreadyRegistered") { "duplicate-key" } else if text.to_lowercase().contains("kes") { "announced-evolutions" } else { "accepted-set-unusable" };
                     sink.sfail(i, class, &format!("SignerBuilder::new on the {} stored registrations of epoch {} fails (the aggregator's epoch service and every signer run exactly this): {}", signers.len(), ep, text.chars().take(160).collect::<String>()), &req);
                 }
@@ -311,5 +315,6 @@ fn main() {
         let unusable = !stored.is_empty() && SignerBuilder::new(&stored, &params).is_err();
         sink.witness("C07-foreign-duplicate-key", r1.is_ok() && r2.is_ok() && stored.len() == 2, &format!("A registers, then B registers A's key KES-signed by B: second accepted={} stored={} SignerBuilder::new(stored)={}", r2.is_ok(), stored.len(), if unusable { "Err" } else { "Ok" }));
     }
+    sink.note("zero-total-stake-rounds (SignerBuilder refuses; outside C07)", &zero_rounds.to_string());
     sink.finish();
 }
